@@ -3,38 +3,8 @@
    statement-level function that meets sspec. *)
 From Coq Require Import List ZArith NArith String Ascii Bool Arith Lia Permutation.
 Import ListNotations.
-From Dagrt Require Import Lang LangProofs Sched Transform TransformSem TransformBasics TransformHoist
+From Dagrt Require Import Lang LangProofs Sched Transform TransformSem TransformSide TransformBasics TransformHoist
      TransformSpec TransformMappers TransformLeaf TransformStmt TransformSd.
-
-(* the expressions map_expressions hands to the mapper *)
-Definition kexprs (k : skind) : list expr :=
-  match k with
-  | KAssign _ sub rhs loops =>
-      match sub with Some ie => [ie] | None => [] end ++ [rhs] ++ flat_map (fun l => [snd (fst l); snd l]) loops
-  | KCall _ _ args kw => args ++ map snd kw
-  | KYield _ _ time e => [e; time]
-  | _ => []
-  end.
-
-(* side conditions per pass, decidable on the leaf *)
-Definition base_leaf (s : tstmt) : bool := negb (has_call (tcond s)) && loopfree (tkd s).
-
-Definition sd_leaf (s : tstmt) : bool :=
-  base_leaf s && forallb (fun f => negb (smem f (kind_writes (tkd s)))) (kfnames (tkd s)).
-
-Definition fai_leaf (s : tstmt) : bool :=
-  base_leaf s
-  && forallb (fun e => fai_ok e && kw_sorted e && arity_ok e) (kexprs (tkd s))
-  && match tkd s with KCall _ _ _ kw => sorted_keys (map fst kw) | _ => true end.
-
-Definition fci_leaf (s : tstmt) : bool :=
-  base_leaf s
-  && match tkd s with
-     | KAssign _ _ _ _ => forallb (fun e => fci_ok e && arity_ok e) (kexprs (tkd s))
-     | _ => true
-     end.
-
-Definition ite_leaf (s : tstmt) : bool := base_leaf s && forallb ite_ok (kexprs (tkd s)).
 
 Section Passes.
   Variable F : string -> list val -> list (string * val) -> option (list val).
@@ -48,8 +18,8 @@ Section Passes.
     apply negb_true_iff in H1. auto.
   Qed.
 
-  Theorem ms_sd_ok lsr lbr ords s st l st' :
-    sd_leaf s = true -> ms_sd lsr lbr ords s st = TOk (l, st') -> sspec s st l st'.
+  Theorem ms_sd_ok lsr lbr sds ords s st l st' :
+    sd_leaf s = true -> ms_sd lsr lbr sds ords s st = TOk (l, st') -> sspec s st l st'.
   Proof.
     unfold sd_leaf. intros H. apply andb_true_iff in H. destruct H as [Hb Hf].
     apply base_leaf_inv in Hb. destruct Hb as [Hc Hl].
@@ -118,28 +88,6 @@ End Passes.
 
 (* ------------------------------------------------------------------------------------ *)
 (* trees                                                                                  *)
-
-(* every variable a tree mentions: statements, guards, loop counters, loop bounds *)
-Fixpoint tvars (t : tree) : list var :=
-  match t with
-  | TLeaf s => svars s
-  | TNull => []
-  | TBlock l => flat_map tvars l
-  | TIf c t => vars c ++ tvars t
-  | TIfElse c t e => vars c ++ tvars t ++ tvars e
-  | TFor x lo hi b => x :: vars lo ++ vars hi ++ tvars b
-  end.
-
-(* the statements of a tree, in order (NullASTNode contributes none) *)
-Fixpoint tstmts (t : tree) : list tstmt :=
-  match t with
-  | TLeaf s => [s]
-  | TNull => []
-  | TBlock l => flat_map tstmts l
-  | TIf _ t => tstmts t
-  | TIfElse _ t e => tstmts t ++ tstmts e
-  | TFor _ _ _ b => tstmts b
-  end.
 
 Section tree_ind'.
   Variable P : tree -> Prop.
